@@ -17,6 +17,7 @@ type lockCore struct {
 	r        int  // number of readers
 	pendingW int  // writers that have announced themselves (block new readers)
 	holderW  *Task
+	acqPC    uintptr // micro mode: where the current write holder took the lock
 	holdersR map[*Task]int
 	holderG  uintptr // free mode: goroutine holding the write lock
 	readersG map[uintptr]int // free mode: goroutines holding read locks
@@ -231,6 +232,7 @@ func (l *lockCore) lock(kind string) {
 			l.w = true
 			l.pendingW--
 			l.holderW = t
+			l.acqPC = pc
 			l.mu.Unlock()
 			return
 		}
